@@ -46,7 +46,8 @@ def _file_entries(rng, fid, maxkeys=6, sections=True):
             if len(ents) >= maxkeys and s is None:
                 break
             n += 1
-            ents.append([s, k, "v%d.%d" % (fid, n)])
+            # mostly plain ASCII; now and then a byte with the top bit set at the end or inside, or printf directives
+            ents.append([s, k, "v%d.%d" % (fid, n) + (rng.pick(["\xe9", "\xff", "\x80", "\xc3\xa9t", "%s%n", "\xa0\xa0"]) if rng.chance(0.08) else "")])
     return ents
 
 
@@ -93,8 +94,42 @@ def rel(read, p):
     """spelling of a sandbox path handed to the library: relative to the working directory $ROOT when the
     world asks for relative names"""
     if p is not None and read.get("rel") and p.startswith("$ROOT/"):
-        return p[len("$ROOT/"):]
+        return read.get("rel_dot", "") + p[len("$ROOT/"):]
     return p
+
+
+def single_file_world(rng, w):
+    """turns a layered world into a single-file world (econf_readFile*): one file, seeded name and spelling
+    (absolute, relative below a directory, a bare name of the working directory, './name'; with and
+    without a dot in the name)"""
+    base = rng.pick(["one.conf", "one.conf", "shells", "a.b.c"])
+    path = rng.pick(["$ROOT/single/", "$ROOT/single/", "$ROOT/"]) + base
+    read = {"ep": "readFile", "path": path, "delim": "=", "comment": "#", "opts": {}}
+    w["cfg"] = dict(w["cfg"])
+    w["cfg"].pop("cwd", None)
+    if rng.chance(0.4):
+        read["rel"] = True
+        w["cfg"]["cwd"] = "$ROOT"
+        if rng.chance(0.3):
+            read["rel_dot"] = "./"
+    read["satisfied"] = satisfied_security(rng)
+    w["read"] = read
+    w["nodes"] = [{"p": path, "t": "f", "entries": file_entries(rng, 1)}]
+    return w
+
+
+def satisfied_security(rng, p=0.25):
+    """security ops for restrictions that EVERY file and directory of a generated tree satisfies (the executor
+    creates them as uid 0 / gid 0, files 0644, directories 0755, links allowed): they must not change anything"""
+    if not rng.chance(p):
+        return []
+    cand = [{"op": "security", "what": "owner", "v": 0}, {"op": "security", "what": "group", "v": 0},
+            {"op": "security", "what": "symlinks", "v": True},
+            {"op": "security", "what": "perms", "file": rng.pick([0o400, 0o444, 0o644]), "dir": rng.pick([0o500, 0o111, 0o755])}]
+    ops = rng.subset(cand, 1, 4)
+    if rng.chance(0.2):
+        ops = [{"op": "security", "what": "owner", "v": 4711}, {"op": "security", "what": "reset"}] + ops
+    return ops
 
 
 def dirarg(read, p):
@@ -164,6 +199,13 @@ def gen_layered_world(rng, i, two_layer=None, want_files=True, small=False, allo
         read["ep"] = "readDirs"
         read["usr"] = R + rng.pick(["/usr/etc", "/usr/lib/p", "/v"])
         read["etc"] = R + rng.pick(["/etc", "/etc/p", "/e"])
+        if rng.chance(0.08):
+            # directory ARGUMENTS are taken literally: characters that separate items inside an option string
+            # are ordinary characters of a path
+            if rng.chance(0.7):
+                read["usr"] = R + rng.pick(["/usr:1.0/etc", "/v;1", "/v=x y", "/usr/p:q;r"])
+            if rng.chance(0.7):
+                read["etc"] = R + rng.pick(["/etc:d", "/e;tc", "/e=1", "/etc/;"])
         nlayers = 2
     else:
         read["ep"] = "readConfig"
@@ -187,7 +229,7 @@ def gen_layered_world(rng, i, two_layer=None, want_files=True, small=False, allo
             nlayers = 3
         else:
             nlayers = rng.pick([1, 2, 3, 3, 3, 4, 4, 6])
-            read["opts"]["parsing_dirs"] = [R + "/%s" % d for d in rng.sample(["usr/lib/p", "run/p", "etc/p", "opt/p", "v", "e", "l3"], nlayers)]
+            read["opts"]["parsing_dirs"] = [R + "/%s" % d for d in rng.sample(["usr/lib/p", "run/p", "etc/p", "opt/p", "v", "e", "l3", "k=v", "sp ace/p"], nlayers)]
             if rng.chance(0.06):
                 # one more layer that cannot hold anything: a component of its path is a regular file
                 read["opts"]["parsing_dirs"].insert(rng.randrange(nlayers + 1), R + "/afile/sub")
@@ -309,6 +351,7 @@ def gen_layered_world(rng, i, two_layer=None, want_files=True, small=False, allo
                 if "PYTHON_STYLE=1" in read["opts"].get("extra", []):
                     n["notrail"] = True     # in python style a comment character after a value belongs to the value
     cfg = io_cfg(rng)
+    read["satisfied"] = satisfied_security(rng, 0.15)
     if rng.chance(0.2) and all(l.startswith("$ROOT") for l in layers):
         # relative names: the run's working directory is $ROOT
         read["rel"] = True
@@ -370,6 +413,8 @@ def final_global_ops(read):
 
 def prologue_ops(read):
     ops = []
+    # restrictions that every file of the tree satisfies: in force for the whole run, they change nothing
+    ops += [dict(o) for o in read.get("satisfied", [])]
     # earlier settings of the process-wide drop-in list that a later call replaced (or cleared again)
     for pre in read.get("global_pre", []):
         ops.append({"op": "setConfDirs", "dirs": pre})
